@@ -18,7 +18,7 @@ RULE = (
     "walks all 720 on small meshes). Oracle: independent lon/lat <-> unit-vector conversion. Non-trivial = "
     "provenance other than lon/lat-nodes-only, or a node within 1 degree of a pole / the antimeridian."
 )
-ASSUMPTIONS = ["for float32 Cartesian sources 'to rounding' means single-precision rounding (1e-6 rad for derived centres, 3e-7 for unit length) - the grid keeps the source's dtype", "no node with 1-1e-8 < |z| < 1 except exactly at a pole (the library's documented pole snap)",
+ASSUMPTIONS = ["for float32 Cartesian sources 'to rounding' means single-precision rounding (1e-6 rad for derived centres, 3e-7 for unit length) - the grid keeps the source's dtype", "positions with |z| > 1-1e-8 (within 1.42e-4 rad of a pole) may be reported at the pole (the statement's pole-snapping tolerance): they, and centres derived from them, are judged at 1.5e-4 rad",
                "supplied edge centres come together with the edge_node_connectivity that defines the edge order"]
 GROUPS = ["node_ll", "node_xyz", "edge_ll", "edge_xyz", "face_ll", "face_xyz"]
 ORDERS = list(itertools.permutations(range(6)))
